@@ -178,6 +178,8 @@ PROMOTABLE = [
     ('memoryview', lambda bits: memoryview(routes.to_bytes(bits)), lambda bits: len(bits) % 8 == 0),
     ('mv_strided', lambda bits: memoryview(routes.interleave(routes.to_bytes(bits)))[::2], lambda bits: len(bits) % 8 == 0),
     ('mv_reversed', lambda bits: memoryview(routes.to_bytes(bits)[::-1])[::-1], lambda bits: len(bits) % 8 == 0),
+    ('bytesio', lambda bits: __import__('io').BytesIO(routes.to_bytes(bits)), lambda bits: len(bits) % 8 == 0),
+    ('bytesio_cursor', lambda bits: (lambda f: (f.read(), f)[1])(__import__('io').BytesIO(routes.to_bytes(bits))), lambda bits: len(bits) % 8 == 0),
     ('list', lambda bits: [c == '1' for c in bits], True),
     ('tuple', lambda bits: tuple(int(c) for c in bits), True),
     ('bitarray', lambda bits: __import__('bitarray').bitarray(bits), True),
@@ -209,7 +211,7 @@ def run_other(bs, acc, ctx):
                     acc.step('promotable', 2, nontrivial=2, ok=2)
                     if r1 != ('ok', exp) or r2 != ('ok', not exp):
                         acc.violation('promotable', 'value', dict(cls=cls, bits=c, form=name, other=c2),
-                                      '\n'.join(["import bitstring", f"a = bitstring.{cls}(bin={c!r})", f"assert (a == {_src(name, c2)}) is {exp}"]), exp, (r1, r2))
+                                      '\n'.join(["import bitstring", f"a = bitstring.{cls}(bin={c!r})", f"v = {_src(name, c2)}", f"assert (a == v) is {exp} and (a != v) is {not exp}, (a == v, a != v)"]), exp, (r1, r2))
             for name, v in nonprom:
                 r1, r2 = obs(lambda: a == v), obs(lambda: a != v)
                 r3, r4 = obs(lambda: v == a), obs(lambda: v != a)
@@ -243,6 +245,10 @@ def _src(name, bits):
         return f"memoryview({routes.interleave(routes.to_bytes(bits))!r})[::2]"
     if name == 'mv_reversed':
         return f"memoryview({routes.to_bytes(bits)[::-1]!r})[::-1]"
+    if name == 'bytesio':
+        return f"__import__('io').BytesIO({routes.to_bytes(bits)!r})"
+    if name == 'bytesio_cursor':
+        return f"(lambda f: (f.read(), f)[1])(__import__('io').BytesIO({routes.to_bytes(bits)!r}))"
     if name == 'list':
         return repr([c == '1' for c in bits])
     if name == 'tuple':
